@@ -167,6 +167,14 @@ func runC11(c *eng.Ctx) {
 	c.Rule("R01.8", "K5")
 	ruleLogShapes(c)
 	c.Floor(20)
+	// cursors committed while the cursors log is being compacted stay readable
+	c.Rule("R09.7", "K1")
+	ruleCleanSwap(c)
+	c.Floor(1)
+
+	c.Rule("R16.9", "K6")
+	ruleInternalPublishesWaive(c)
+	c.Floor(2)
 
 	// ---- R11.4 no stale fill
 	c.Rule("R11.4", "K4")
